@@ -116,6 +116,18 @@ class VecIdx(P.AVec):
         return tm.var('%s[%d]' % (P._short(self.key()), i))
 
 
+class SettingsProxy:
+    """solver settings: any attribute is an arbitrary real (the reverse rules must not depend on them except by passing them on)"""
+
+    def __getattr__(self, k):
+        if k.startswith('__'):
+            raise AttributeError(k)
+        return tm.var('settings.' + k)
+
+
+SETTINGS = SettingsProxy()
+
+
 class VJP:
     def __init__(self, slot, at, vec, p):
         self.slot, self.at, self.vec, self.p = slot, at, vec, p
@@ -180,7 +192,7 @@ def _reverse_rules(S):
             x, r, hv, precond, trSize, settings = [ba.arguments[n] for n in ('x', 'r', 'hess_vec_func', 'precond', 'trSize', 'settings')]
             z = P.AVec.atom('lam')
             # CG contract (C06): H z = -r
-            calls.append(dict(x=x, r=r, hv=hv, trSize=trSize, z=z))
+            calls.append(dict(x=x, r=r, hv=hv, trSize=trSize, z=z, settings=settings))
             P.cur().ghost['cg'] = calls[-1]
             out = (z, P.AVec.atom('cauchyP'), 'interior', 1)
             return out[:arity] if arity else out
@@ -199,7 +211,7 @@ def _reverse_rules(S):
     def run_b():
         en = EnergyProxy(p_old)
         P.cur().ghost['en'] = en
-        return ns['nonlinear_solve_b'](en, 'settings', (Uu, 'design_new'), v)
+        return ns['nonlinear_solve_b'](en, SETTINGS, (Uu, 'design_new'), v)
     _total_then(S, q, run_b, demo('nonlinear_solve'), lambda res, ctx: _post_b(res, ctx, Uu, v, p_old, Params))
     # ---- nonlinear_solve_with_state_b, every pattern of absent slots ----
     q2 = 'NonlinearSolve.nonlinear_solve_with_state_b'
@@ -213,7 +225,7 @@ def _reverse_rules(S):
         def run_s(p_fwd=p_fwd):
             en = EnergyProxy(Params('stale0', 'stale1', 'stale2', 'stale3', 'stale4', 'stale5'))
             P.cur().ghost['en'] = en
-            return ns['nonlinear_solve_with_state_b'](en, 'settings', (Uu, p_fwd), v)
+            return ns['nonlinear_solve_with_state_b'](en, SETTINGS, (Uu, p_fwd), v)
         _total_then(S, q2 + tag, run_s, demo('nonlinear_solve_with_state'), lambda res, ctx, p_fwd=p_fwd, pat=pat: _post_s(res, ctx, Uu, v, p_fwd, pat, Params), fn=q2)
 
 
@@ -247,7 +259,8 @@ def _adjoint_clauses(ctx, Uu, v, p_expected, o):
         return None
     o['adjoint_solve_starts_from_zero'] = tm.and_(*cg['x'].same_as(P.AVec.zero()))
     o['adjoint_right_hand_side_is_the_cotangent'] = tm.and_(*cg['r'].same_as(v))
-    o['adjoint_solve_has_no_trust_region_limit'] = tm.TRUE if cg['trSize'] == float('inf') else tm.FALSE
+    o['adjoint_solve_has_no_trust_region_limit'] = tm.TRUE if (isinstance(cg['trSize'], float) and cg['trSize'] == float('inf')) else tm.FALSE
+    o['adjoint_solve_receives_the_solver_settings'] = tm.TRUE if cg.get('settings') is SETTINGS else tm.FALSE
     w = P.AVec.atom('w')
     want = EnergyProxy.hessian_vec(type('E', (), {'p': p_expected})(), Uu, w)
     o['adjoint_operator_is_the_hessian_at_the_solution_under_the_forward_parameters'] = tm.and_(*cg['hv'](w).same_as(want))
